@@ -16,7 +16,9 @@ from vlib import common as C, e2e, sysrun as S
 
 PROP = "C02"
 THEOREMS = ["GitAi.Sys.blame_matches_ghost", "GitAi.Sys.rewrite_preserves_attribution", "GitAi.Sys.replay_credit_from_source",
-            "GitAi.Sys.replay_never_invents", "GitAi.Sys.resolution_line_credit_partial", "GitAi.Sys.witness_agent_resolution_line_lost",
+            "GitAi.Sys.replay_never_invents", "GitAi.Sys.resolution_line_credit", "GitAi.Sys.resolution_other_lines", "GitAi.Sys.resolution_never_invents",
+            "GitAi.Sys.replayR_nil", "GitAi.Sys.regression_agent_resolution_line_credited",
+            "GitAi.Sys.resolution_line_credit_partial", "GitAi.Sys.witness_agent_resolution_line_lost",
             "GitAi.Sys.regression_block_of_several_authors", "GitAi.Sys.regression_line_rewritten_later",
             "GitAi.Sys.aborted_is_identity", "GitAi.Sys.stash_roundtrip_partial", "GitAi.Sys.regression_stash_upstream_above",
             "GitAi.Sys.rspecRun_st", "GitAi.RJ.fresh_operation_uses_its_own_head", "GitAi.RJ.continuation_keeps_the_open_start",
@@ -39,7 +41,7 @@ class Sc:
         self.tainted_ws = set()  # texts re-touched whitespace-only after being committed as AI (known finding)
         self.overlap = False     # a later commit of the rewritten range touches a file an earlier one touched
         self.human_replaced = set()   # texts a person wrote in place of an existing line
-        self.resolution_ai = set()    # texts an agent typed (checkpoint reported) while a rebase was stopped at a conflict
+        self.resolution_unmerged = set()   # texts an agent typed into a still unmerged file while a rebase was stopped (its checkpoint records nothing)
         # --- script for the Lean model (Model/Rewrite.lean): what was done, with git's own results as inputs
         self.mops = []           # global op list; per-file payloads are dicts path -> value
         self.ids = {}            # norm(text) -> line id
@@ -228,7 +230,7 @@ class Sc:
                     self.failures.append((sig, {"where": where, "path": p, "line": i, "text": t, "want": g, "have": have,
                                                 "block_authors": sorted(authors), "mixed_block": len(authors) > 1,
                                                 "rewritten_later_by_have": bool(have) and self.later_version_by(t, have),
-                                                "typed_by_agent_during_resolution": norm(t) in self.resolution_ai,
+                                                "typed_by_agent_in_unmerged_file": norm(t) in self.resolution_unmerged,
                                                 "log": self.log[-10:]}))
 
     def later_version_by(self, text, have_hash):
@@ -323,7 +325,7 @@ class Sc:
 
     def t_rebase_conflict(self, action):
         rng = self.rng
-        self.base(nfiles=1)
+        self.base(nfiles=2)
         p = self.files[0]
         self.git("switch", "-q", "-c", "feature")
         self.edit(rng.pick(["s1", "s2"]), p, where="middle", kind="replace", n=2)
@@ -351,19 +353,41 @@ class Sc:
                 self.model_ok = False
             self.check_tip("after rebase --skip")
         else:
-            # conflict resolution inside the stopped rebase: a person or an agent (checkpoint reported)
-            # removes the markers and types one more line; model op `typed`, then the replay
+            # conflict resolution inside the stopped rebase: a person or an agent removes the markers and types
+            # one more line; model op `typed`, then the replay. An agent's checkpoint is RECORDED (in the working
+            # log of the commit the rebase stopped on, which the replay of the continued operation reads) when
+            # the file is not unmerged any more: `add-then-edit` (markers removed, `git add`, then the agent
+            # types) and `other-file` (the agent types into a file that has no conflict). With `edit-then-add`
+            # (the agent edits the conflicted file and reports before `git add`) the checkpoint skips the
+            # unmerged file and records nothing: known finding, `rec` = false.
             who = rng.pick(["human", "s2"])
+            order = rng.pick(["edit-then-add", "add-then-edit", "other-file"])
             ls = [l for l in self.lines(p) if not l.startswith(("<<<<<<<", "=======", ">>>>>>>", "|||||||"))]
+            q = p
+            if order != "edit-then-add":
+                self.write(p, ls)
+                self.git("add", "-A")
+            if order == "other-file":
+                q = self.files[1]
+                ls = self.lines(q)
             if who != "human":
-                self.r.human_checkpoint([p])
+                self.r.human_checkpoint([q])
             t = self.fresh(who)
             ls.insert(len(ls) // 2, t)
-            self.write(p, ls)
+            self.write(q, ls)
+            recorded = who != "human" and order != "edit-then-add"
             if who != "human":
-                self.r.ai_checkpoint(who, [p], tool=S.TOOL)
-                self.resolution_ai.add(norm(t))
-            self.mrec("typed", s=int(who[1:]) if who != "human" else 0, ids=[self.lid(t)])
+                self.r.ai_checkpoint(who, [q], tool=S.TOOL)
+                if not recorded:
+                    self.resolution_unmerged.add(norm(t))
+            if order != "edit-then-add" and rng.chance(1, 3):
+                # a person goes on typing in the same file after the agent's checkpoint (no checkpoint)
+                t2 = self.fresh("human")
+                ls = self.lines(q); ls.insert(0, t2); self.write(q, ls)
+                self.mrec("typed", s=0, ids=[self.lid(t2)], rec=False)
+            self.mrec("typed", s=int(who[1:]) if who != "human" else 0, ids=[self.lid(t)], rec=recorded)
+            self.log.append({"op": "resolve", "who": who, "order": order, "path": q})
+            action = f"continue:{order}"
             self.git("add", "-A")
             rc = self.git("rebase", "--continue")
             if rc != 0:
@@ -739,7 +763,9 @@ REPLAY_FAMILIES = ("rebase[upstream-touches-tracked-file]", "rebase-conflict-con
 
 def full_sig(fam, sig, d):
     """family:kind, refined for the two recorded findings of the content-replay path:
-    * a line an agent typed (checkpoint reported) while the rebase was stopped at a conflict comes out human;
+    * a line an agent typed into a still UNMERGED file while the rebase was stopped at a conflict comes out human (the
+      checkpoint skips unmerged files; lines whose checkpoint was recorded are credited since the repair of
+      credit_lines_recorded_while_stopped and have no classifier);
     * a person's line that a later commit of the rewritten range (an agent's) changed again is credited to
       that later session in the rebased version of the earlier commit (tokens of the final state survive
       the diff chain).
@@ -748,8 +774,8 @@ def full_sig(fam, sig, d):
     if sig == "human-tweak-of-ai-line-still-ai":
         return sig
     base = fam.split("+tail-")[0]
-    if base == "rebase-conflict-continue" and sig == "surviving-ai-line-lost" and d.get("typed_by_agent_during_resolution"):
-        return f"{fam}:{sig}:typed-by-agent-during-resolution"
+    if base == "rebase-conflict-continue" and sig == "surviving-ai-line-lost" and d.get("typed_by_agent_in_unmerged_file"):
+        return f"{fam}:{sig}:typed-by-agent-in-unmerged-file"
     if base in REPLAY_FAMILIES and sig == "human-line-became-ai" and d.get("rewritten_later_by_have"):
         return f"{fam}:{sig}:line-rewritten-by-a-later-commit-of-the-range"
     return f"{fam}:{sig}"
@@ -880,7 +906,7 @@ def run(tier, seed):
                 "cherry-pick single|range|-n, amend, merge --squash, reset --soft|--mixed + recommit, stash/pop with upstream "
                 "changes, switch/checkout -m carrying work, failing and dry-run operations, a real rebase after a no-op or aborted one) with randomised edits, sessions and "
                 "upstream change positions (other file, above, below, both); non-trivial = more than 4 executed steps")
-    res.rule += ("; correspondence: for every template the model has (all but cherry-pick -n; conflict continuation included: the lines typed during the resolution are a `typed` step before the replay) the Lean model Model/Rewrite.lean is fed the runner's steps and the file contents "
+    res.rule += ("; correspondence: for every template the model has (all but cherry-pick -n; conflict continuation included: the lines typed during the stop are a `typed` step — by a person or an agent, in the conflicted file before `git add` (checkpoint skipped: known finding), after `git add`, or in a file without conflict (checkpoint recorded: `rec`, credited by the replay of the continued operation, ROp.replayR), optionally followed by a person's unreported line — before the replay) the Lean model Model/Rewrite.lean is fed the runner's steps and the file contents "
                  "git produced for rewritten commits, and its predicted blame is compared with the binary's at every observation point")
     res.trusted = ["Lean 4.33 kernel", "extract/rewrite_hooks.py (textual extraction of the start/continue decision)",
                    "vlib/props/c02.py text-identity ghost tracking and model-script recording", "real git 2.39 (its rebase / "
